@@ -17,6 +17,8 @@ func checkC08(c *Check, a *Anchors) {
 		"behaviour of the third-party graph library beyond PreventCycles being requested",
 	}
 	c08CopyExhaustive(c, a)
+	namespaceAlwaysPrepended(c, a)
+	c10PhaseSources(c, a) // "sees the include's vars": the included-Taskfile variables of a merged task come from the included file, the include variables from the include statement
 	c08UnmarshalExhaustive(c, a)
 	c08NamespaceRewrite(c, a)
 	c08NoSilentOverwrite(c, a)
@@ -52,6 +54,20 @@ func c08IncludeBase(c *Check, a *Anchors) {
 					}
 				}
 				base = shapeOf(info, e)
+			}
+		}
+		// every successful return of a local resolver is a function of the argument (the argument itself when absolute, the
+		// join otherwise): a return that ignores it resolves some spelling of the path (empty, ".") onto another base
+		if base != "" && fb.Type.Params != nil && len(fb.Type.Params.List) == 1 && len(fb.Type.Params.List[0].Names) == 1 {
+			if pv, ok := info.Defs[fb.Type.Params.List[0].Names[0]].(*types.Var); ok {
+				for i, r := range returnsOf(fb.Body) {
+					if len(r.Results) != 2 || !isNilLit(info, r.Results[1]) {
+						continue
+					}
+					n++
+					c.Decide(mentionsVia(info, fb.Body, r.Results[0], pv, 3), "include-base-agrees", fmt.Sprintf("%s.%s-return#%d", recvOf(fb), fb.Decl.Name.Name, i+1), r.Pos(), "the result is computed from the path argument",
+						fmt.Sprintf("(*%s).%s returns `%s` without using its path argument on this branch: for that spelling of the path the include is resolved against a different base (the node's own directory depends on which include reached the file first)", recvOf(fb), fb.Decl.Name.Name, exprStr(r.Results[0])))
+				}
 			}
 		}
 		if types_[recvOf(fb)] == nil {
